@@ -54,16 +54,17 @@ func viol(prop, clause, site string, o *Obs, detail string, attrs ...string) Vio
 
 // Plan is a replayable run: configuration plus the concrete symbolic steps.
 type Plan struct {
-	Prop   string          `json:"prop"`
-	Seed   uint64          `json:"seed"`
-	Tier   string          `json:"tier"`
-	Mode   string          `json:"mode,omitempty"` // "" sequence | custom modes of some properties
-	Cfg    Config          `json:"cfg"`
-	Steps  []Step          `json:"steps"`
-	Extra  json.RawMessage `json:"extra,omitempty"`
-	Expect string          `json:"expect,omitempty"` // expected violation signature
-	Digest string          `json:"digest,omitempty"`
-	Detail string          `json:"detail,omitempty"`
+	Prop   string            `json:"prop"`
+	Seed   uint64            `json:"seed"`
+	Tier   string            `json:"tier"`
+	Mode   string            `json:"mode,omitempty"` // "" sequence | custom modes of some properties
+	Cfg    Config            `json:"cfg"`
+	Steps  []Step            `json:"steps"`
+	Extra  json.RawMessage   `json:"extra,omitempty"`
+	Expect string            `json:"expect,omitempty"` // expected violation signature
+	Digest string            `json:"digest,omitempty"`
+	Detail string            `json:"detail,omitempty"`
+	Env    map[string]string `json:"env,omitempty"`
 }
 
 // RunResult is the outcome of executing a plan once.
